@@ -51,8 +51,11 @@ CHECKS = {
         "AdditionalProperties) returns the value. C06_oneof_roundtrip / C06_oneof_roundtrip_discriminator (Model/OneOf.v: one Maybe field per "
         "variant, MarshalJSON writes the set field, UnmarshalJSON tries the variants in order or switches on the discriminator): the value "
         "comes back exactly when no EARLIER variant accepts its encoding, resp. when the encoding carries a discriminator name the generated "
-        "switch maps to its variant. Tie: seeded schemas x boundary/random values through json.Marshal / json.Valid / json.Unmarshal of the "
-        "compiled package vs the extracted model, oneOf components (no / partial / complete mapping) included.",
+        "switch maps to its variant. C06_string_text_roundtrip / C06_string_text_is_one_token (Model/JsonString.v, a transcription of "
+        "encoding/json's string encoder and unquote): the text written for any string or key is read back as the same bytes and is one JSON "
+        "string token. Tie: seeded schemas x boundary/random values through json.Marshal / json.Valid / json.Unmarshal of the "
+        "compiled package vs the extracted model, oneOf components (no / partial / complete mapping) included; every value also written as a "
+        "response body by the generated Write after a large body; encoding/json's string encoder/decoder vs the transcription on ~2000 texts.",
    note="Trusted: Coq kernel; extraction + driver.ml (incl. its JSON reader/printer); harness value builder/dumper. Hypotheses of the theorem "
         "(stdlib, not proved): number and time formatting round-trip. Modelled not verified: Go semantics of the emitted codec, encoding/json on "
         "leaf types. Known finding D28 (embedded member with additionalProperties) is outside rt_ok and reported as KNOWN-FINDING.",
